@@ -3,14 +3,53 @@
 //! canonicalised output) for the Lean driver.  See /verif/DESIGN.md section 5.
 mod c17;
 mod c20;
+mod mp4gen;
+mod mp4props;
+mod mp4run;
 mod rng;
+mod sparse;
 
 use std::io::Write;
+use std::sync::atomic::{AtomicBool, Ordering};
+
+/// set while the code under test runs inside catch_unwind: its panics are results, not harness bugs
+pub static QUIET: AtomicBool = AtomicBool::new(false);
+
+pub fn install_panic_hook() {
+    let default = std::panic::take_hook();
+    std::panic::set_hook(Box::new(move |info| {
+        if !QUIET.load(Ordering::SeqCst) {
+            default(info);
+        }
+    }));
+}
+
+pub fn quiet<T, F: FnOnce() -> T + std::panic::UnwindSafe>(f: F) -> std::thread::Result<T> {
+    QUIET.store(true, Ordering::SeqCst);
+    let r = std::panic::catch_unwind(f);
+    QUIET.store(false, Ordering::SeqCst);
+    r
+}
 
 pub struct Opts {
     pub tier_thorough: bool,
     pub seed: u64,
     pub replay: Option<String>,
+    /// (index, count): this process handles the cases whose index is congruent to `index`
+    pub shard: (u64, u64),
+}
+
+impl Opts {
+    pub fn mine(&self, idx: u64) -> bool {
+        idx % self.shard.1 == self.shard.0
+    }
+}
+
+pub fn unhex(s: &str) -> Vec<u8> {
+    if s == "-" {
+        return vec![];
+    }
+    (0..s.len() / 2).map(|i| u8::from_str_radix(&s[2 * i..2 * i + 2], 16).unwrap()).collect()
 }
 
 pub fn hex(b: &[u8]) -> String {
@@ -31,7 +70,7 @@ fn main() {
         std::process::exit(2);
     }
     let prop = args[1].clone();
-    let mut opts = Opts { tier_thorough: false, seed: 0, replay: None };
+    let mut opts = Opts { tier_thorough: false, seed: 0, replay: None, shard: (0, 1) };
     let mut i = 2;
     while i < args.len() {
         match args[i].as_str() {
@@ -41,6 +80,11 @@ fn main() {
             }
             "--seed" => {
                 opts.seed = args[i + 1].parse().unwrap_or(0);
+                i += 2;
+            }
+            "--shard" => {
+                let (a, b) = args[i + 1].split_once('/').unwrap();
+                opts.shard = (a.parse().unwrap(), b.parse().unwrap());
                 i += 2;
             }
             "--replay" => {
@@ -53,12 +97,14 @@ fn main() {
             }
         }
     }
+    install_panic_hook();
     let stdout = std::io::stdout();
     let mut out = std::io::BufWriter::with_capacity(1 << 20, stdout.lock());
     if let Some(line) = opts.replay.clone() {
         match prop.as_str() {
             "C17" => c17::replay(&line, &mut out),
             "C20" => c20::replay(&line, &mut out),
+            "C01" | "C02" | "C03" | "C04" | "C05" => mp4props::replay(&prop, &line, &mut out),
             _ => {
                 eprintln!("no replay for {prop}");
                 std::process::exit(2);
@@ -70,6 +116,7 @@ fn main() {
     match prop.as_str() {
         "C17" => c17::run(&opts, &mut out),
         "C20" => c20::run(&opts, &mut out),
+        "C01" | "C02" | "C03" | "C04" | "C05" => mp4props::run(&prop, &opts, &mut out),
         _ => {
             eprintln!("unknown property {prop}");
             std::process::exit(2);
